@@ -28,6 +28,8 @@ func main() {
 		cmdSelftest(os.Args[2:])
 	case "replay":
 		cmdReplay(os.Args[2:])
+	case "solverdiff":
+		cmdSolverDiff(os.Args[2:])
 	default:
 		fmt.Fprintln(os.Stderr, "unknown command", os.Args[1])
 		os.Exit(2)
@@ -172,8 +174,6 @@ func printSummary(ex *Explorer, d time.Duration, verbose bool) {
 		fmt.Printf("  functions encoded: %d\n", len(s.Funcs))
 	}
 }
-
-
 
 // cmdReplay re-runs a stored counterexample directory (written next to a VIOLATION line) natively against /repo.
 func cmdReplay(args []string) {
